@@ -449,6 +449,12 @@ def r_flipshape(f):
             if st["k"] == "assign" and st["rv"]["k"] == "agg" and (st["rv"].get("adt") or "").endswith("ops::Range") and len(st["rv"]["fields"]) == 2:
                 ends.append((const_usize(strip(d.expr(st["rv"]["fields"][0]))), strip(d.expr(st["rv"]["fields"][1]))))
         sr = [t for _, t, fn in b.calls() if fn and fn["name"] == "swap_rows"]
+        if not sr:
+            # .. or `let (a, b) = self.row_pair_mut(r, num_rows-1-r); a.swap_with_slice(b)`
+            rp = [t for _, t, fn in b.calls() if fn and fn["name"] == "row_pair_mut"]
+            sws_ = [t for _, t, fn in b.calls() if fn and fn["path"] == "core::slice::<impl [T]>::swap_with_slice"]
+            if len(rp) == 1 and len(sws_) == 1:
+                sr = rp
         okr = len(ends) == 1 and ends[0][0] == 0 and ends[0][1][0] == "bin" and ((ends[0][1][1] == "Div" and const_usize(strip(ends[0][1][3])) == 2) or (ends[0][1][1] == "Shr" and const_usize(strip(ends[0][1][3])) == 1)) and is_rows(ends[0][1][2])
         oka = False
         if len(sr) == 1 and len(sr[0]["args"]) == 3:
@@ -513,6 +519,18 @@ def r_flipshape(f):
             if half and (mirror_(a1, a2) or mirror_(a2, a1)):
                 okm = True
         ok = okm
+        if not ok:
+            # halves form, per row: `let (l, r) = row.split_at_mut(row.len() / 2); l.iter_mut().zip(r.iter_mut().rev()).for_each(|(a, b)| mem::swap(a, b))`
+            for x in bodies:
+                dx_ = Dfx(x)
+                sp = [t for _, t, fn in x.calls() if fn and fn["name"] == "split_at_mut" and len(t["args"]) == 2]
+                names_ = [fn["name"] for y in [x] + x.closures() for _, _, fn in y.calls() if fn]
+                if len(sp) == 1:
+                    m_ = strip(dx_.expr(sp[0]["args"][1]))
+                    half = m_[0] == "bin" and ((m_[1] == "Div" and const_usize(strip(m_[3])) == 2) or (m_[1] == "Shr" and const_usize(strip(m_[3])) == 1)) and strip(m_[2])[0] == "call" and strip(m_[2])[2] in ("len", "num_cols")
+                    swp = any(fn and fn["path"] in ("core::mem::swap", "core::ptr::swap") for y in bodies for _, _, fn in y.calls())
+                    if half and names_.count("rev") == 1 and "zip" in names_ and swp:
+                        ok = True
     R.inst(b.ident, "reverses every row of rows_mut() (cursor advanced only by %s)" % sorted(adv), ok)
     if not ok:
         R.fail(b.ident, "shape", "flip_cols does not reverse every row (steps %s, reverse calls %d)" % (sorted(adv), len(rev)), b.where())
@@ -1305,6 +1323,73 @@ def r_lockstep(f):
     return R, n
 
 
+def _paths_trivial(b, dfe, e, groups):
+    """every acyclic path from the entry to block e makes both components of mid trivial: an edge `x == 0`, `x == <dimension
+    getter>` (a shift by the whole extent), a `0 =>` arm, or an assignment of the constant 0 - for x any version of the component"""
+    def grp(expr):
+        expr = strip(expr)
+        for c_ in (0, 1):
+            if expr[0] in ("var", "param") and expr[1] in groups[c_]:
+                return c_
+            if expr[0] == "field" and strip(expr[1]) == ("param", 2) and expr[2] == c_:
+                return c_
+        return None
+    paths = [0]
+    ok_all = [True]
+
+    def walk_(x, seen, triv, depth):
+        if paths[0] > 400 or depth > 60:
+            ok_all[0] = False
+            return
+        bl = b.blocks[x]
+        triv = set(triv)
+        for st in bl["stmts"]:
+            if st["k"] == "assign" and not st["p"]["proj"] and st["rv"]["k"] == "use" and st["rv"]["o"]["k"] == "const":
+                for c_ in (0, 1):
+                    if st["p"]["local"] in groups[c_] and const_usize(("const", st["rv"]["o"]["val"], "usize")) == 0:
+                        triv.add(c_)
+        if x == e:
+            paths[0] += 1
+            if triv != {0, 1}:
+                ok_all[0] = False
+            return
+        tt = bl["term"]
+        if not tt:
+            return
+        if tt["k"] == "switch":
+            e_ = strip(dfe.expr(tt["discr"]))
+            neg_ = False
+            while e_[0] == "un" and e_[1] == "Not":
+                neg_ = not neg_; e_ = strip(e_[2])
+            tm_ = [(int(a_), b2) for a_, b2 in tt["targets"]]
+            for val, sx in tm_ + [(None, tt["otherwise"])]:
+                if sx in seen or b.blocks[sx]["cleanup"]:
+                    continue
+                t2 = set(triv)
+                if e_[0] == "bin" and e_[1] in ("Eq", "Ne"):
+                    truth = (val is None and any(v_ == 0 for v_, _ in tm_)) or val == 1
+                    if neg_:
+                        truth = not truth
+                    holds_eq = truth if e_[1] == "Eq" else not truth
+                    if holds_eq:
+                        for side, other in ((e_[2], e_[3]), (e_[3], e_[2])):
+                            c_ = grp(side)
+                            o_ = strip(other)
+                            if c_ is not None and (const_usize(o_) == 0 or (o_[0] == "call" and o_[2] in ("num_cols", "num_rows", "len"))):
+                                t2.add(c_)
+                else:
+                    c_ = grp(e_)
+                    if c_ is not None and val == 0:
+                        t2.add(c_)      # `match x { 0 => .. }`
+                walk_(sx, seen | {sx}, t2, depth + 1)
+            return
+        for sx in b.succs(x):
+            if sx not in seen:
+                walk_(sx, seen | {sx}, triv, depth + 1)
+    walk_(0, {0}, set(), 0)
+    return ok_all[0] and paths[0] > 0
+
+
 def r_noshift(f):
     """R-NOSHIFT: translate_with_wrap may leave without having moved anything only when there is nothing to move: on every
     exit that no element-moving call can reach, both (normalised) components of `mid` are zero in every {zero, non-zero}
@@ -1353,6 +1438,12 @@ def r_noshift(f):
                 for c_ in (0, 1):
                     if st["rv"]["o"]["p"]["local"] in groups[c_] and st["p"]["local"] not in groups[c_] and b.locals[st["p"]["local"]] == "usize" and b.debug_name(st["p"]["local"]):
                         groups[c_].add(st["p"]["local"]); grew = True
+    # a shadowing `let col_mid = ..` of the same name is a later version of the same component, however it is computed
+    for c_ in (0, 1):
+        nms = {b.debug_name(l) for l in groups[c_]} - {None}
+        for l in range(b.arg_count + 1, len(b.locals)):
+            if b.locals[l] == "usize" and b.debug_name(l) in nms:
+                groups[c_].add(l)
     Z = ZFn(bd, {})
     keys = [("L", l) for c_ in (0, 1) for l in sorted(groups[c_])[:4]]
     gkeys = {c_: [("L", l) for l in sorted(groups[c_]) if ("L", l) in keys] for c_ in (0, 1)}
@@ -1405,11 +1496,15 @@ def r_noshift(f):
         if any(es is not None and (es == e or es in dome.get(e, set())) for es in empty_succ):
             continue
         nexit[0] += 1
+        bad_e = []
         for tup in IN[e]:
             V = dict(zip(keys, tup))
             triv = [any(V[k] == "Z" for k in gkeys[c_]) for c_ in (0, 1)]
             if not all(triv):
-                bad.append((e, "Z" if triv[0] else "NZ", "Z" if triv[1] else "NZ"))
+                bad_e.append((e, "Z" if triv[0] else "NZ", "Z" if triv[1] else "NZ"))
+        if bad_e and _paths_trivial(b, dfe, e, groups):
+            bad_e = []       # on every path to this exit each component was found equal to 0 or to its own dimension
+        bad += bad_e
     # wrap-around normalisation: a component that equals its dimension is replaced by 0 (the same shift), nothing else
     ninst = 1
     for sb, bl in enumerate(b.blocks):
@@ -1502,15 +1597,39 @@ def r_noshift(f):
             ninst += 1
             facts = [c_] + [Cond(">=", Poly.atom(a)) for a in atoms_l | atoms_c]
             okz = decide(facts, Cond("<=", ln)) is True or decide(saturate(facts), Cond("<=", ln)) is True
+            if not okz and what == "amount":
+                # rotating a row by its whole length moves nothing either: amount == <some length atom> on the skipping edge
+                for a in atoms_l:
+                    if a.startswith("num_cols(") or a.startswith("len("):
+                        df_ = ln - Poly.atom(a)
+                        if all(decide(fs_, Cond(op_, df_)) is True for op_ in ("<=", ">=") for fs_ in [saturate(facts)]):
+                            okz = True
             R.inst(b.ident, "%s(..) over the %s is skipped only when that is empty / zero (skip condition %r)" % (fn["name"], what, c_), okz)
             if not okz:
                 R.fail(b.ident, "skips-nonempty:%s:%s" % (fn["name"], what), "%s skips %s(..) over the %s when %r holds, although the %s can then still be non-empty: those cells are not moved" % (b.ident, fn["name"], what, c_, what.split(" ")[0]), b.where(t["span"]))
     # rows are rotated towards the origin (the cell at mid moves to column 0): rotate_left by the column shift; a rotate_right is
     # only the same thing when its amount is `num_cols - shift`
-    for mb, t, fn in [(x, y, z) for bb_ in [b] + b.closures() for x, y, z in bb_.calls()]:
+    for bb_ in [b] + b.closures():
+      dxx_ = Dfx(bb_)
+      lefts = [strip(dxx_.expr(t2["args"][1])) for _, t2, fn2 in bb_.calls() if fn2 and fn2["path"] == "core::slice::<impl [T]>::rotate_left" and len(t2["args"]) == 2]
+      for mb, t, fn in bb_.calls():
         if fn and fn["path"] == "core::slice::<impl [T]>::rotate_right" and len(t["args"]) == 2:
-            e_ = strip(Dfx(b).expr(t["args"][1])) if mb < len(b.blocks) and b.blocks[mb]["term"] is t else ("?",)
-            okd = e_[0] == "bin" and e_[1].startswith("Sub") and strip(e_[2])[0] == "call" and strip(e_[2])[2] in ("num_cols", "len")
+            e_ = strip(dxx_.expr(t["args"][1]))
+            recv_ = strip(dxx_.expr(t["args"][0]))
+            if bb_ is not b and e_[0] in ("field", "deref"):
+                # a captured variable: look at what the parent stored in the closure
+                ee_ = e_[1] if e_[0] == "deref" else e_
+                ee_ = strip(ee_)
+                if ee_[0] == "field" and strip(ee_[1]) in (("param", 1), ("deref", ("param", 1))):
+                    dpar_ = Dfx(b)
+                    for _, _, stp in b.stmts():
+                        if stp["k"] == "assign" and stp["rv"]["k"] == "agg" and stp["rv"].get("agg") == "closure" and stp["rv"].get("def") == bb_.id and ee_[2] < len(stp["rv"]["fields"]):
+                            cap = strip(dpar_.expr(stp["rv"]["fields"][ee_[2]]))
+                            e_ = strip(cap[1]) if cap[0] in ("ref", "refmut") else cap
+            # complement form `width - shift`; or one half of a row pair whose other half is rotated left by the same amount
+            # (a full swap followed by the two fix-up rotations)
+            okd = (e_[0] == "bin" and e_[1].startswith("Sub") and const_usize(strip(e_[2])) is None) or \
+                  (any(x[0] == "call" and x[2] == "row_pair_mut" for x in walk(recv_)) and any(show(l_) == show(e_) for l_ in lefts))
             ninst += 1
             R.inst(b.ident, "rows are rotated left by the column shift (or right by num_cols - shift)", okd)
             if not okd:
